@@ -206,7 +206,11 @@ class SimulatorWorkerThread(Thread):
                         # listener, an event, or the WARN_AND_END strategy);
                         # the state it has set must not be overwritten
                         if not self._finalized:
-                            self._job._run_state = RunState.STARTED
+                            # a stop() issued while the simulator was 
+                            # starting (by a listener) is not overwritten:
+                            # the run pauses before its first event
+                            if self._job._run_state != RunState.STOPPING:
+                                self._job._run_state = RunState.STARTED
                             self._job._run()
                         if not self._finalized:
                             self._job.fire_timed(self._job.simulator_time,
